@@ -106,8 +106,6 @@ func RestorePart(run *report.Run, st *Setup, n int) {
 			}
 			break
 		}
-		if i == 0 {
-			run.Sample(map[string]any{"process_case": i, "shape": s.Shape(), "history": env.Log})
-		}
+		run.Sample(map[string]any{"process_case": i, "shape": s.Shape(), "history": env.Log})
 	})
 }
